@@ -418,18 +418,19 @@ Definition prod_o3 (pl : play) (off : nat) (p : aprod) : nat := prod_o2 pl off p
 Definition prec_tok_off (pl : play) (off : nat) (p : aprod) : nat :=
   prod_o1 pl off p + byte_len kw_prec + byte_len (pg_prec1 pl).
 
-(* where the production's span ends: the end of its last item — the opening brace
-   when there is an action — or the terminator when it has no item at all *)
-Definition prod_pend (pl : play) (off : nat) (p : aprod) : option nat :=
+(* where the production's span ends: the end of its last item (%empty, symbol, %prec token) —
+   or, when it has no item at all, the action's opening brace / the terminator.
+   [fp = false] is the code before /repo 69c4b9b: an action's opening brace always ends the span. *)
+Definition prod_pend (fp : bool) (pl : play) (off : nat) (p : aprod) : option nat :=
   let pe0 := if uses_empty pl p then Some (off + byte_len kw_empty) else None in
   let pe1 := syms_pend pl 0 (prod_o0 pl off p) (ap_syms p) pe0 in
   let pe2 := match ap_prec p with
              | Some t => Some (prec_tok_off pl off p + byte_len (print_tok (pq_prec pl) t))
              | None => pe1
              end in
-  match ap_action p with Some _ => Some (prod_o2 pl off p) | None => pe2 end.
+  match ap_action p with Some _ => brace_pend fp pe2 (prod_o2 pl off p) | None => pe2 end.
 
-Definition prod_eff (fa : bool) (pl : play) (rn : str) (off : nat) (p : aprod) (a : gast) : gast :=
+Definition prod_eff (fa fp : bool) (pl : play) (rn : str) (off : nat) (p : aprod) (a : gast) : gast :=
   let a1 := syms_ins pl 0 (prod_o0 pl off p) (ap_syms p) a in
   let a2 := match ap_prec p with
             | Some t => tokens_insert a1 t (tok_span (pq_prec pl) (prec_tok_off pl off p) t)
@@ -440,18 +441,18 @@ Definition prod_eff (fa : bool) (pl : play) (rn : str) (off : nat) (p : aprod) (
              | None => None
              end in
   add_prod_t a2 rn (syms_out pl 0 (prod_o0 pl off p) (ap_syms p)) (ap_prec p) act
-             (off, match prod_pend pl off p with Some e => e | None => prod_o3 pl off p end).
+             (off, match prod_pend fp pl off p with Some e => e | None => prod_o3 pl off p end).
 
 (* offset of the production after production pi printed at off *)
 Definition prod_next (pl : play) (off : nat) (p : aprod) : nat :=
   prod_o3 pl off p + 1 + byte_len (pg_term pl).
 
-Fixpoint prods_eff (fa : bool) (rl : rlay) (rn : str) (pi off : nat) (ps : list aprod) (a : gast) : gast :=
+Fixpoint prods_eff (fa fp : bool) (rl : rlay) (rn : str) (pi off : nat) (ps : list aprod) (a : gast) : gast :=
   match ps with
   | [] => a
   | p :: ps' =>
-      prods_eff fa rl rn (S pi) (prod_next (r_play rl pi) off p) ps'
-                (prod_eff fa (r_play rl pi) rn off p a)
+      prods_eff fa fp rl rn (S pi) (prod_next (r_play rl pi) off p) ps'
+                (prod_eff fa fp (r_play rl pi) rn off p a)
   end.
 
 (* a rule block printed at [off]; [at_] = the action type of the block: its own (Grmtools
@@ -467,16 +468,16 @@ Definition rule_body_off (rl : rlay) (off : nat) (r : arule) : nat :=
 Definition rule_at_ (at_ : option str) (r : arule) : option str :=
   match ar_type r with Some t => Some t | None => at_ end.
 
-Definition rule_eff (fa : bool) (rl : rlay) (off : nat) (at_ : option str) (r : arule) (a : gast) : gast :=
-  prods_eff fa rl (ar_name r) 0 (rule_body_off rl off r) (ar_prods r)
+Definition rule_eff (fa fp : bool) (rl : rlay) (off : nat) (at_ : option str) (r : arule) (a : gast) : gast :=
+  prods_eff fa fp rl (ar_name r) 0 (rule_body_off rl off r) (ar_prods r)
             (rule_head_eff off (rule_at_ at_ r) (ar_name r) a).
 
-Fixpoint rules_eff (fa : bool) (l : layout) (r off : nat) (at_ : option str) (rs : list arule) (a : gast) : gast :=
+Fixpoint rules_eff (fa fp : bool) (l : layout) (r off : nat) (at_ : option str) (rs : list arule) (a : gast) : gast :=
   match rs with
   | [] => a
   | x :: rs' =>
-      rules_eff fa l (S r) (off + byte_len (print_rule (rlay_of l r) x)) at_ rs'
-                (rule_eff fa (rlay_of l r) off at_ x a)
+      rules_eff fa fp l (S r) (off + byte_len (print_rule (rlay_of l r) x)) at_ rs'
+                (rule_eff fa fp (rlay_of l r) off at_ x a)
   end.
 
 (* the whole file *)
@@ -491,10 +492,10 @@ Definition gat_of (l : layout) (ag : agram) : option (str * span) :=
 Definition programs_eff (ag : agram) (a : gast) : gast :=
   match ag_programs ag with Some p => upd_programs a (Some p) | None => a end.
 
-Definition ast_of (fa : bool) (l : layout) (ag : agram) : gast :=
+Definition ast_of (fa fp : bool) (l : layout) (ag : agram) : gast :=
   programs_eff ag
-    (rules_eff fa l 0 (rules_off l ag) (actiont_of (gat_of l ag)) (ag_rules ag)
+    (rules_eff fa fp l 0 (rules_off l ag) (actiont_of (gat_of l ag)) (ag_rules ag)
                (decls_eff l 0 (decls_off l) 0 (ag_decls ag) ast_new)).
 
-Definition warnings_of (fa : bool) (l : layout) (ag : agram) : outcome (list (wkind * span)) :=
-  warnings (ast_of fa l ag).
+Definition warnings_of (fa fp : bool) (l : layout) (ag : agram) : outcome (list (wkind * span)) :=
+  warnings (ast_of fa fp l ag).
